@@ -27,8 +27,9 @@
       call asks for a transfer and no vote request claims to come from the node itself; the
       start state must be a leader that voted for itself), C17_vote_invariant (that side
       condition is an invariant of every RawNode entry point, holding trivially of any
-      follower), C17_transfer_expires_from_any_start (the two combined: no assumption on the
-      leader state beyond being reached from a state satisfying the invariant).
+      follower), C17_transfer_expires_from_any_start (the two combined), C17_rn_new_init and
+      C17_transfer_expires_from_boot (RawNode::new establishes the invariant, so the expiry
+      holds for every leader state of every execution from construction).
    4. "... or when the target leaves the voters", and on any reset:
       C17_transfer_cleared_on_reset, C17_transfer_cleared_when_target_removed,
       C17_apply_conf_change_clears_removed_target.
@@ -46,8 +47,6 @@
      (election safety + leader completeness) and a liveness argument; only its node-level
      ingredients are here (6: the target campaigns at term+1 with a real, lease-bypassing
      vote; 1: it had the leader's whole log when told to).
-   * r_id <> 0 (asserted by RawNode::new, constant afterwards) is a hypothesis wherever it is
-     needed; the model has no constructor, so "holds after construction" cannot be stated.
    * expiry when further MsgTransferLeader requests keep arriving (each NEW target restarts
      the timer at 0, C17_transfer_timer_step; a repeated request for the same target does
      not), and under vote requests that claim to come from the node itself.
@@ -278,6 +277,34 @@ Theorem C17_transfer_expires_from_any_start :
     r_lead_transferee (rn_raft n') = None.
 Proof. exact transfer_expires_from_any_start. Qed.
 Print Assumptions C17_transfer_expires_from_any_start.
+
+(* construction: RawNode::new returns a follower with a non-zero id, nothing pending *)
+Theorem C17_rn_new_init :
+  forall c st sa d n,
+    rn_new c st sa d = Ok (inr n) ->
+    r_id (rn_raft n) = c_id c /\ c_id c <> 0 /\ r_state (rn_raft n) = Follower /\
+    r_lead_transferee (rn_raft n) = None /\
+    filter (fun x => m_type x =? MsgTimeoutNow) (r_msgs (rn_raft n)) = [].
+Proof. exact rn_new_init. Qed.
+Print Assumptions C17_rn_new_init.
+
+Theorem C17_transfer_expires_from_boot :
+  forall c st sa d is0 is n0 n n',
+    rn_new c st sa d = Ok (inr n0) ->
+    rn_run n0 is0 = Ok n ->
+    is_leader (rn_raft n) = true ->
+    rn_run n is = Ok n' ->
+    Forall (fun i => match input_msg (c_id c) i with
+                     | Some m => m_type m <> MsgTransferLeader /\
+                                 (m_type m = MsgRequestVote -> m_from m <> c_id c)
+                     | None => True
+                     end) is ->
+    0 < N.of_nat (length (filter is_tick is)) ->
+    r_election_timeout (rn_raft n) <=
+      r_election_elapsed (rn_raft n) + N.of_nat (length (filter is_tick is)) ->
+    r_lead_transferee (rn_raft n') = None.
+Proof. exact transfer_expires_from_boot. Qed.
+Print Assumptions C17_transfer_expires_from_boot.
 
 Example C17_ex_expires :
   (exists n', rn_run (ex_rn ex_pending3) (repeat RnTick 9) = Ok n' /\
